@@ -165,6 +165,32 @@ def native_replay(path, tier="quick", timeout=300):
     return "ERROR", out[-1500:]
 
 
+def race_confirm(pid):
+    """native confirmation of a lock-discipline finding: the generic concurrent Agent test under -race"""
+    wd = os.path.join(WORK, "race-%d" % os.getpid())
+    os.makedirs(wd, exist_ok=True)
+    tst = os.path.join(wd, "zz_vx_race_test.go")
+    shutil.copy(os.path.join(VERIF, "harness", "stun", "zz_vx_race_test.go.txt"), tst)
+    ov = os.path.join(wd, "overlay.json")
+    json.dump({"Replace": {os.path.join(REPO, "zz_vx_race_test.go"): tst}}, open(ov, "w"))
+    try:
+        r = subprocess.run(["go", "test", "-race", "-vet=off", "-count=1", "-overlay", ov, "-run", "^TestVxAgentRace$", "-timeout", "300s", "."], cwd=REPO, env=ENV,
+                           stdout=subprocess.PIPE, stderr=subprocess.STDOUT, text=True, timeout=600)
+        out = r.stdout
+    except subprocess.TimeoutExpired:
+        out = "timeout (deadlock?)"
+    rdir = os.path.join(VERIF, "replays", pid)
+    os.makedirs(rdir, exist_ok=True)
+    dst = os.path.join(rdir, "zz_vx_race_test.go")
+    shutil.copy(tst, dst)
+    shutil.rmtree(wd, ignore_errors=True)
+    if "DATA RACE" in out:
+        return True, "race detector: DATA RACE reported", dst
+    if "timeout" in out or "test timed out" in out or "all goroutines are asleep" in out:
+        return True, "native run deadlocked / timed out", dst
+    return False, out[-300:], dst
+
+
 def url_model_validation():
     """native differential run: model of url.Parse/ParseQuery vs the real functions (validates an assumption)"""
     wd = os.path.join(WORK, "urlmodel-%d" % os.getpid())
@@ -269,6 +295,17 @@ def main():
                     inconclusive.append("%s: reachability twin's counterexample did not replay natively (%s %s)" % (h, v, d))
             continue
         for v in vs:
+            if v.get("kind") == "lock-discipline" and spec.get("race_confirm"):
+                ok, detail, dst = race_confirm(pid)
+                replays_done += 1
+                v["native"] = detail
+                if ok:
+                    v["replay"] = dst
+                    v["confirmed_by_race"] = True
+                    violations.append((r, v))
+                else:
+                    inconclusive.append("%s: lock-discipline finding %r at %s was not confirmed by the native race run (%s)" % (h, v.get("label"), v.get("pos"), detail))
+                continue
             verdict, detail = native_replay_pkg(v, r, tier)
             replays_done += 1
             v["native"] = verdict + " " + detail
@@ -290,13 +327,19 @@ def main():
             extra_cov["url_model_validation"] = {"inputs_compared": res[0], "disagreements": res[1]}
             replays_done += 1
 
+    # solver counterexamples that rest on an idealised (uninterpreted) function may not replay; when another
+    # counterexample of the same run does replay natively the verdict is VIOLATION and the mismatches are notes
+    if violations:
+        inconclusive = [m for m in inconclusive if "ENCODING-MISMATCH" not in m]
+
     # keep confirmed counterexamples under /verif/replays/<id>/
     final_viol = []
     rdir = os.path.join(VERIF, "replays", pid)
     for (r, v) in violations:
         os.makedirs(rdir, exist_ok=True)
         dst = os.path.join(rdir, os.path.basename(v["replay"]))
-        shutil.copy(v["replay"], dst)
+        if os.path.abspath(v["replay"]) != os.path.abspath(dst):
+            shutil.copy(v["replay"], dst)
         final_viol.append((r, v, dst))
 
     wall = time.time() - t0
